@@ -11,7 +11,7 @@
 //	              developer there.  From 2^16 on the case carries (nomodel 1): the association lists of the model are
 //	              quadratic, the driver judges such cases with its own hash-based statement of the property; from 2^17 on
 //	              the harness judges (judgeHere) and the trace carries (gen many d) and the verdict.
-//	scale-mailmap a .mailmap of m lines (10^2, 10^3, thorough 10^4) in groups "Name_g <p_g@x> <c_g_j@x>" plus
+//	scale-mailmap a .mailmap of m lines (80, 900, thorough 2700) in groups "Name_g <p_g@x> <c_g_j@x>" plus
 //	              e-mail-only groups, commits from the mapped and the canonical addresses and from strangers
 package main
 
@@ -147,6 +147,10 @@ func judgeHere(g *gcase) Sx {
 				used[k] = true
 				used[strings.ToLower(cm.Author.Name)] = true
 			}
+			if v, ok := d.PeopleDict[k]; ok && v != a { // Consume = the dictionary lookup, e-mail (signature) first
+				bad("consume", i)
+				return
+			}
 			if b, ok := seen[k]; ok && b != a {
 				bad("same-email", i)
 				return
@@ -238,12 +242,12 @@ func scaleStreams(c *Config) {
 	scaleFew(c, 1000000, 1023, 1025, false)
 	scaleFew(c, 1000000, 64, 65, true)
 	scaleChain(c, 1000, false)
-	scaleChain(c, 2049, false)
+	scaleChain(c, 1025, false)
 	scaleChain(c, 10000, true)
 	scaleChain(c, 100000, true)
 	for _, d := range []int{4095, 4096, 4097, 1<<16 - 1, 1 << 16, 1<<16 + 1, 1<<18 - 3, 1<<18 - 2, 1<<18 - 1, 1 << 18, 1<<18 + 1} {
 		scaleMany(c, d, false)
 	}
 	scaleMany(c, 1<<18+1, true)
-	scaleMailmap(c, 1000, 9, 100000)
+	scaleMailmap(c, 300, 9, 30000)
 }
